@@ -182,7 +182,7 @@ def pool_timeout_runs(ctx, rec):
         for rt in ("asyncio", "trio"):
             import random
             ex = concur.Explorer(rt, {"max_connections": 1, "origins": 2, "callers": 2, "T": T, "free_at": free_at, "http2": False}, random.Random(1))
-            (concur.run_asyncio if rt == "asyncio" else concur.run_trio)(ex, schedule)
+            concur.run_schedule(ex, schedule)
             rec.evals += 1
             rec.distinct.add(("pool-timeout", T, free_at, rt))
             tl = ex.result["timeline"]
@@ -238,7 +238,7 @@ def pool_timeout_runs(ctx, rec):
         import random
         ex = concur.Explorer(rt, {"max_connections": 1, "origins": 1, "callers": 4, "T": 3.0, "release_at": [1.0, 2.0, 2.5, 2.75],
                                   "http2": False, "max_keepalive": None}, random.Random(2))
-        (concur.run_asyncio if rt == "asyncio" else concur.run_trio)(ex, requeue_schedule)
+        concur.run_schedule(ex, requeue_schedule)
         rec.evals += 1
         rec.distinct.add(("pool-timeout-requeue", rt))
         outs = {c.idx: c.outcome for c in ex.callers}
